@@ -137,8 +137,18 @@ def _mk(c, tchans=None):
     fch1 = g['fch1'] if asc else float(F(g['fch1']) + (FCHANS - 1) * F(df))
     if c.get('negdf'):
         df = -df        # channel width handed over with a filterbank header's sign: the frame's df is its magnitude
-    return stg.Frame(fchans=FCHANS, tchans=tchans or c['tchans'], df=df, dt=dt, fch1=fch1,
-                     ascending=asc, t_start=0.0)
+    fr = stg.Frame(fchans=FCHANS, tchans=tchans or c['tchans'], df=df, dt=dt, fch1=fch1,
+                   ascending=asc, t_start=0.0)
+    if c.get('route') == 'fil':
+        # (sub-box) the same frame after a trip through a filterbank file: what the helper does on a LOADED frame
+        import os, contextlib, io
+        fn = os.path.join(engine.workdir(), 'c13_%s_%d.fil' % (engine.sha(c), tchans or c['tchans']))
+        with contextlib.redirect_stdout(io.StringIO()):
+            fr.save_fil(fn)
+            fr = stg.Frame(waterfall=fn)
+        os.remove(fn)
+        fr.data = np.zeros(fr.data.shape)
+    return fr
 
 
 def _inputs(fr, c, drift_ch=None):
@@ -468,6 +478,7 @@ def run(ctx):
     for st in ('quantity_scaled', 'np_f32', 'np_i64', 'py_int'):
         cases += [dict(c, style=st) for c in base]
     cases += [dict(c, negdf=True, asc=a) for c in base for a in (True, False)]
+    cases += [dict(c, route='fil', asc=a) for c in base for a in (True, False) if c['prof'] == 'box']
     # whole-channel drifts (1..4 channels per step, either sign) with smearing in the decimal geometries
     for geom in ('dec1', 'dec2', 'dec3'):
         for asc in (True, False):
